@@ -124,7 +124,7 @@ func (w *World) runPath(solver *Solver, fn *ssa.Function, dec []int, wantModel b
 	e := &Exec{w: w, prog: w.prog, solver: solver, decisions: dec, maxSteps: w.cfg.MaxSteps,
 		funcs: map[*ssa.Function]bool{}, symCount: map[string]int{}, globals: map[*ssa.Global]*Cell{},
 		builders: map[string]StrV{}, mutexes: map[string]*mutexState{}, onces: map[string]*onceState{},
-		wgs: map[string]*wgState{}, mapOrderFn: map[string]bool{}, reached: map[string]bool{},
+		wgs: map[string]*wgState{}, mapOrderFn: map[string]bool{}, appendCapFn: map[string]bool{}, reached: map[string]bool{},
 		nativeObjs: map[string]Value{}}
 	e.initThreads(w.cfg.MaxPreempt)
 	solver.Push()
